@@ -111,6 +111,18 @@ func runC08(r *fw.Run, p *fw.Program) {
 	c.rulePure()
 	c.ruleToValue()
 	c.ruleJQ()
+	c.ruleDelegate()
+	// a decoded integer is a *big.Int, a decoded float a float64: what tojson / output print for them must be the
+	// engine encoder's digits (borrowed from C07.json, value and float roles)
+	if ref, err := c07LoadRef(p); err != nil {
+		r.Rule("C08.json", "borrowed C07.json", 1).Undecided("borrowed:C07.json", "", err.Error())
+	} else {
+		sc := r.Scratch()
+		c07Encoder(sc, p, ref)
+		r.Import(sc, "C07.json", "C08.json", "a decode value's number prints as its JSON value's number: colorjson's value and float roles (type dispatch incl. *big.Int in base 10 with its sign, float formatting) have exactly the engine encoder's effects (C07.json obligations of the value/float roles)", 10, func(k string) bool {
+			return strings.Contains(k, "value:") || strings.Contains(k, "float:") || strings.HasPrefix(k, "anchor")
+		})
+	}
 }
 
 // ---------------------------------------------------------------------------
